@@ -71,3 +71,33 @@ theorem parseTyped_monetary (a : String) (n : Int) (hsp : ' ' ∉ a.toList)
   simp [this, Except.map]
 
 end Ledger.Api
+
+namespace Ledger.Api
+
+/-! ### v2: `ScriptV1.ToCore` -/
+
+theorem string_ofList_eq (a : String) (cs : List Char) :
+    String.ofList (a.toList ++ ' ' :: cs) = a ++ " " ++ String.ofList cs := by
+  apply String.toList_injective
+  simp [String.toList_append, String.toList_ofList]
+
+/-- v2, amount given as a decimal *string*: passed through untouched, any magnitude. -/
+theorem varV2_monetary_string (a : String) (n : Int) :
+    varV2 (.obj [("asset", .str a), ("amount", .str (showIntS n))]) = some (a ++ " " ++ showIntS n) := by
+  obtain ⟨h1, h2⟩ := lookup_amount_asset (.str a) (.str (showIntS n))
+  unfold varV2
+  simp only [h1, h2, fmtAsset, goFmt]
+  rw [string_ofList_eq]
+  simp [showIntS, String.toList_ofList]
+
+/-- v2, amount given as a JSON *number*: what reaches the machine is
+    `v2AmountInt` of the literal (nearest double, then Go's `int()` conversion). -/
+theorem varV2_monetary_number (a : String) (n : JNum) :
+    varV2 (.obj [("asset", .str a), ("amount", .num n)]) = some (a ++ " " ++ showIntS (v2AmountInt n)) := by
+  obtain ⟨h1, h2⟩ := lookup_amount_asset (.str a) (.num n)
+  unfold varV2
+  simp only [h1, h2, fmtAsset, goFmt, v2NumericAmount]
+  rw [string_ofList_eq]
+  rfl
+
+end Ledger.Api
